@@ -1027,12 +1027,13 @@ func closeLocalOnce(p *Prog, s panicSite) (bool, string) {
 		if _, isMk := stripConv(s.subject).(*ssa.MakeChan); isMk && !inLoop(s.in) {
 			return true, "close of a channel made in this call, outside any loop"
 		}
-		return false, ""
 	}
+	mine := map[ssa.Value]bool{} // the channels this local can hold
 	for _, o := range origins(s.subject) {
 		if _, isMk := o.Val.(*ssa.MakeChan); !isMk {
 			return false, ""
 		}
+		mine[o.Val] = true
 	}
 	// no other close of this cell's channel in the function or the closures that capture it
 	closes := 0
@@ -1044,14 +1045,14 @@ func closeLocalOnce(p *Prog, s panicSite) (bool, string) {
 			if cc == nil || calleeOf(cc).Builtin != "close" {
 				return
 			}
+			hit := false
 			for _, o := range origins(cc.Args[0]) {
-				if _, isMk := o.Val.(*ssa.MakeChan); isMk {
-					for _, st := range storesTo(cell) {
-						if st.Val == o.Val {
-							closes++
-						}
-					}
+				if mine[o.Val] {
+					hit = true
 				}
+			}
+			if hit {
+				closes++
 			}
 		})
 	}
@@ -1061,7 +1062,19 @@ func closeLocalOnce(p *Prog, s panicSite) (bool, string) {
 	if !inLoop(s.in) {
 		return true, "the only close of a local channel that is always made before, outside any loop"
 	}
-	if _, isDefer := s.in.(*ssa.Defer); !isDefer {
+	// inside a loop: the channel (the operand is evaluated here, also for a deferred close) is made afresh in the same
+	// iteration on every way from the loop's head to the close — each execution closes a channel of its own
+	if len(mine) == 1 {
+		for mkv := range mine {
+			mk := mkv.(*ssa.MakeChan)
+			for _, lp := range loopsOf(f) {
+				if lp.Blocks[s.in.Block()] && lp.Blocks[mk.Block()] && !reachesAvoiding(lp.Header.Instrs[0], s.in, mk) && lp.Header.Instrs[0] != ssa.Instruction(mk) {
+					return true, "the only close of a channel made earlier in the same loop iteration on every path: every execution closes a fresh channel"
+				}
+			}
+		}
+	}
+	if _, isDefer := s.in.(*ssa.Defer); !isDefer || cell == nil {
 		return false, ""
 	}
 	for _, st := range storesTo(cell) {
